@@ -54,4 +54,38 @@ def SL.All (P : Op → Prop) : SL → Prop
   | .cons h t => h.All P ∧ t.All P
 end
 
+/-! ## the function indices carried by the non-code sections -/
+
+def mapFOp (g : Nat → Nat) (o : Op) : Op :=
+  if o.name = "RefFunc" then
+    match o.args with
+    | [.ref sp f] => ⟨o.name, [.ref sp (g f)]⟩
+    | _ => o
+  else o
+
+def mapFC (g : Nat → Nat) (c : CExprM) : CExprM := c.map (mapFOp g)
+
+def mapFElem (g : Nat → Nat) (e : ElemM) : ElemM :=
+  { e with
+    mode := (match e.mode with
+      | .active t off => .active t (mapFC g off)
+      | .passive => .passive
+      | .declared => .declared),
+    items := (match e.items with
+      | .funcs fs => .funcs (fs.map g)
+      | .exprs ty es => .exprs ty (es.map (mapFC g))) }
+
+def mapFData (g : Nat → Nat) (d : DataM) : DataM :=
+  { d with mode := (match d.mode with
+      | .active mi off => .active mi (mapFC g off)
+      | .passive => .passive) }
+
+def mapFExport (g : Nat → Nat) (e : String × String × Nat) : String × String × Nat :=
+  if e.2.1 = "f" then (e.1, e.2.1, g e.2.2) else e
+
+/-- the module with the function indices of its non-code sections renumbered by `g` -/
+def mapFM (g : Nat → Nat) (m : ModuleM) : ModuleM :=
+  { m with globals := m.globals.map (fun p => (p.1, mapFC g p.2)), elems := m.elems.map (mapFElem g),
+           datas := m.datas.map (mapFData g), start := m.start.map g, exports := m.exports.map (mapFExport g) }
+
 end Walrus.Sem
